@@ -152,7 +152,8 @@ CLAIMS = {
                 "level 0 (any width) -> parse gives the same names, nesting, order, disabled marks, merge flags, word texts and quote styles, and the second print is byte-identical "
                 "(C01_parse_print_parse_level0 via C01_parsed_trees_in_domain + C01_tree_level0 + C01_text_fixpoint_level0); level 3 for trees whose attributes are the bool/int ones, levels 3 and 2 also for string-valued attributes with any characters that fit on their printed line (not re-flowed); "
                 "value words of a definition survive print -> parse at every width (continuation backslashes incl.); quoted words read back exactly; the parser never yields a lone "
-                "backslash word. PARTIAL: re-flowed (wrapped) attribute texts, .type/.call, the level 1 view and deprecated definitions are decided on every run by running parse -> "
+                "backslash word. Deprecated definitions: level 3 prints them with the warning comment line and they come back with their .deprecated value, level 2 parses to the tree without them; dotted names at every "
+                "level >= 1 (21 theorems). PARTIAL: re-flowed (wrapped) attribute texts, .type/.call and dotted names together with deprecated definitions at level 2 are decided on every run by running parse -> "
                 "print -> parse -> print in freephil and in the extracted parser/printer model on rich generated documents and by the oracle comparing the trees under the level's view.",
         "note": "Trusted: Coq kernel, extraction, driver, harness, hand-written models of tokenizer.py, parser.py, the printer in common.py, str(converter); textwrap.wrap "
                 "modelled for the options the code passes; float converters carried as printed text.",
